@@ -18,6 +18,7 @@ type Profile struct {
 	Checkpoint int  // percentage of transactions followed by a forced checkpoint
 	Reopen     int  // percentage of transactions followed by a restart (crash or clean) inside the history
 	OpenMid    int  // percentage of (non-final) transactions that are left in flight while later transactions run and commit; at most two per history
+	PostCrash  int  // percentage of histories whose crash images are, after recovery and new statements, crashed and recovered once more
 	Bulk       int  // percentage of statements that touch many pages at once (8-24 long rows inserted / 8-24 rows enlarged), so that one open transaction dirties more pages than the pool holds
 }
 
@@ -34,7 +35,7 @@ type genState struct {
 func (g *genState) val() int32 { g.nextVal++; return g.nextVal }
 
 func (g *genState) str(t *rapid.T, l string) string {
-	n := rapid.SampledFrom([]int{8, 8, 20, 20, 60, 300, 900, 1200}).Draw(t, l)
+	n := rapid.SampledFrom([]int{8, 8, 20, 20, 60, 300, 900, 1200, 2100, 3400}).Draw(t, l) // 2100/3400: one or two rows fill a page; an UPDATE record (both images) exceeds a page
 	s := fmt.Sprintf("w%d-", g.val())
 	if len(s) < n {
 		s += strings.Repeat("x", n-len(s))
@@ -159,6 +160,7 @@ func GenHistory(t *rapid.T, p Profile) *History {
 	h.Tear = rapid.IntRange(0, 3).Draw(t, "tear") == 0
 	h.Growth = rapid.IntRange(0, 2).Draw(t, "growth") == 0
 	h.MaxCrashPoints = 60
+	h.PostCrash = p.PostCrash > 0 && rapid.IntRange(0, 99).Draw(t, "postcrash") < p.PostCrash
 	g := &genState{live: map[string][]int32{}, bulk: p.Bulk}
 	nsetup := rapid.SampledFrom([]int{0, 2, 5, 12, 30}).Draw(t, "nsetup")
 	if p.SameRows && nsetup > 5 {
